@@ -252,6 +252,25 @@ func init() {
 		if err := simulateAndReplay(c, mcRun{"MC_AutogradFlags", 12, 5, true, false}, sims, depth, 30*time.Minute); err != nil {
 			return err
 		}
+		// "tracking never changes forward values" for every operation, shape and argument of the grids of C03 / C04 / C05 /
+		// C06 / C14: those cases are executed tracked and with every input untracked; all tensors must be bit-identical
+		for _, g := range []struct {
+			mod string
+			np  int
+		}{{"Gen_C03", 2}, {"Gen_C04", 2}, {"Gen_C05", 2}, {"Gen_C06", 4}, {"Gen_C14", 1}, {"Gen_C02", 8}} {
+			np := g.np
+			if c.Thorough {
+				np = 1
+			}
+			c.Logf("tracked vs untracked execution of the cases of %s (every %d-th case)", g.mod, np)
+			files, err := c.GenerateSample(g.mod, np, 30*time.Minute)
+			if err != nil {
+				return err
+			}
+			if err := c.TwinReplay(files, 2); err != nil {
+				return err
+			}
+		}
 		nt := 150
 		if c.Thorough {
 			nt = 3000
@@ -279,6 +298,29 @@ func init() {
 		if c.Thorough {
 			sims, depth = 3000, 50
 		}
-		return simulateAndReplay(c, mcRun{"MC_AutogradSlices", 7, 2, true, true}, sims, depth, 30*time.Minute)
+		if err := simulateAndReplay(c, mcRun{"MC_AutogradSlices", 7, 2, true, true}, sims, depth, 30*time.Minute); err != nil {
+			return err
+		}
+		// every operation, shape, rank and argument of the other grids: each case is executed once as it is and once with
+		// every slice handed to the library (nested data of every rank, dimension lists, ranges, tensor lists) overwritten
+		// right after the call; tensors and gradients must be bit-identical
+		for _, g := range []struct {
+			mod string
+			np  int
+		}{{"Gen_C06", 2}, {"Gen_C03", 2}, {"Gen_C04", 2}, {"Gen_C05", 2}, {"Gen_C02", 8}, {"Gen_C16", 1}} {
+			np := g.np
+			if c.Thorough {
+				np = 1
+			}
+			c.Logf("overwriting the caller's slices in the cases of %s (every %d-th case)", g.mod, np)
+			files, err := c.GenerateSample(g.mod, np, 30*time.Minute)
+			if err != nil {
+				return err
+			}
+			if err := c.TwinReplay(files, 2); err != nil {
+				return err
+			}
+		}
+		return nil
 	})
 }
